@@ -1,7 +1,8 @@
 """apply each seeded change to /repo, run the checks of its property, undo, record what happened.
 usage: seed_run.py [ids...] [--props C01,C02] [--tier quick]"""
 import json, os, subprocess, sys, time
-V = "/verif"
+V = os.path.dirname(os.path.dirname(os.path.dirname(os.path.abspath(__file__))))
+REPO = os.environ.get("PAMS_REPO", "/repo")
 args = [a for a in sys.argv[1:] if not a.startswith("--")]
 opts = dict(a[2:].split("=", 1) for a in sys.argv[1:] if a.startswith("--") and "=" in a)
 ids = args or sorted(os.listdir(f"{V}/seeded"))
@@ -12,8 +13,8 @@ for sid in ids:
         continue
     meta = json.load(open(f"{d}/meta.json"))
     props = opts.get("props", meta["property"]).split(",")
-    assert subprocess.run("git -C /repo status --porcelain", shell=True, capture_output=True, text=True).stdout.strip() == "", "/repo not clean"
-    r = subprocess.run(["git", "-C", "/repo", "apply", f"{d}/patch.diff"])
+    assert subprocess.run(f"git -C {REPO} status --porcelain", shell=True, capture_output=True, text=True).stdout.strip() == "", "repo not clean"
+    r = subprocess.run(["git", "-C", REPO, "apply", f"{d}/patch.diff"])
     res = {}
     try:
         if r.returncode != 0:
@@ -25,7 +26,7 @@ for sid in ids:
             res[p] = {"exit": out.returncode, "lines": lines[-4:], "wall": round(time.time() - t, 1)}
             print(sid, p, "exit", out.returncode, "|", " ; ".join(lines[-3:])[:300], flush=True)
     finally:
-        subprocess.run("git -C /repo checkout -- . && git -C /repo status --porcelain", shell=True)
+        subprocess.run(f"git -C {REPO} checkout -- . && git -C {REPO} status --porcelain", shell=True)
     meta.setdefault("runs", {})[tier] = res
     meta["confirmed"] = meta.get("confirmed") or "patch applies; demo.py exits 0 without / 1 with the patch; 681 tests pass with it (harness/tools/seed_confirm.sh in a scratch worktree)"
     json.dump(meta, open(f"{d}/meta.json", "w"), indent=1)
